@@ -21,8 +21,15 @@ Definition sentry (bn : bytes * bytes) : bytes * bytes * bytes :=
   (upper (snd bn), fst bn, td_text KW_STRUCT (fst bn) (snd bn)).
 Definition btext (bn : bytes * bytes) : bytes := td_text KW_STRUCT (fst bn) (snd bn).
 
+(* the typedef "typedef enum {" body "} name;" is read as the enum e: isolated by the pre-passes, and the enum scanner
+   returns exactly the type name (as the struct declarations spell it) and the labels *)
+Definition etd_reads (e : enumdecl) (body name : bytes) : Prop :=
+  item_good (ITd KW_ENUM body name) /\
+  enum_entry (td_text KW_ENUM body name) = Some (upper (e_tname e), e_labels e).
+Definition ebtext (bn : bytes * bytes) : bytes := td_text KW_ENUM (fst bn) (snd bn).
+
 (* the same meaning up to the typedef texts *)
-Definition with_structs (p : pdoc) (texts : list bytes) : pdoc := mkpdoc (pd_pairs p) (pd_enums p) texts (pd_tables p).
+Definition with_texts (p : pdoc) (etexts stexts : list bytes) : pdoc := mkpdoc (pd_pairs p) etexts stexts (pd_tables p).
 
 Lemma struct_entry_td body name : seg_ok (Td KW_STRUCT body name) -> struct_entry (td_text KW_STRUCT body name) = Some (sentry (body, name)).
 Proof.
@@ -80,17 +87,18 @@ Qed.
 (* ANY list of well-formed items whose struct typedefs are read as the document's tables (in table order), whose enum
    typedefs are the document's, and whose lines drive the line loop to the document's pairs and rows, is read as the
    document -- reporting the typedef texts as they stand *)
-Theorem parse_items_td d tws bns its st' : doc_ok d = true -> map fst tws = d_tables d -> tws_ok (d_enums d) tws ->
+Theorem parse_items_td d tws bns ebns its st' : doc_ok d = true -> map fst tws = d_tables d -> tws_ok (d_enums d) tws ->
   Forall2 (fun tw bn => td_reads (d_enums d) (fst tw) (fst bn) (snd bn)) tws bns ->
+  Forall2 (fun e bn => etd_reads e (fst bn) (snd bn)) (d_enums d) ebns ->
   Forall item_good its -> its <> [] ->
   map item_td_text (filter (item_is_td KW_STRUCT) its) = map btext bns ->
-  map item_td_text (filter (item_is_td KW_ENUM) its) = map render_enum (d_enums d) ->
+  map item_td_text (filter (item_is_td KW_ENUM) its) = map ebtext ebns ->
   process_lines (sy_of (d_enums d) tws) (st_init (sy_of (d_enums d) tws)) (map item_line its ++ [[]]) = Some st' ->
   loop_result d st' ->
-  exists p, sem d = Some p /\ parse (items_text its) = Some (with_structs p (map btext bns)) /\
-            parse_binary (items_text its) = Some (with_structs p (map btext bns)).
+  exists p, sem d = Some p /\ parse (items_text its) = Some (with_texts p (map ebtext ebns) (map btext bns)) /\
+            parse_binary (items_text its) = Some (with_texts p (map ebtext ebns) (map btext bns)).
 Proof.
-  intros Hd Et Hok Hbn Hg Hne F1' F2' PL1 [PL2 PL3].
+  intros Hd Et Hok Hbn Hebn Hg Hne F1' F2' PL1 [PL2 PL3].
   destruct (doc_ok_parts d Hd) as [Hc [Hcn [Hp [Hdk [Hes [Hde [Ht Hdn]]]]]]].
   set (es := d_enums d) in *.
   destruct (items_good_text _ Hg) as [Hio [Htx Hco]].
@@ -104,7 +112,10 @@ Proof.
   assert (J : join_cont b = b).
   { unfold join_cont. rewrite <- (app_nil_r b) at 1. rewrite join_cont_ok by auto. now rewrite app_nil_r. }
   destruct (items_prepass its Hio) as [F1 [F2 R]]. fold b in F1, F2, R. rewrite F1' in F1. rewrite F2' in F2.
-  set (stexts := map btext bns) in *. set (etexts := map render_enum es) in *.
+  set (stexts := map btext bns) in *. set (etexts := map ebtext ebns) in *.
+  assert (EE : omap enum_entry etexts = Some (enums_of es)).
+  { subst etexts es. clear -Hebn. induction Hebn as [|e bn es ebns [_ He] _ IH]; [reflexivity|].
+    cbn [map omap enums_of]. fold (enums_of es). unfold ebtext at 1. rewrite He. now rewrite IH. }
   assert (SE : omap struct_entry stexts = Some (map sentry bns)).
   { subst stexts. clear -Hbn. induction Hbn as [|tw bn tws bns [[Hio _] _] _ IH]; [reflexivity|].
     cbn [map omap]. rewrite IH. destruct bn as [body name]. unfold btext. cbn [fst snd] in *.
@@ -123,12 +134,12 @@ Proof.
     intros tw Hin. cbn [fst snd]. rewrite PL3; [reflexivity|]. rewrite <- Et. now apply in_map. }
   destruct (omap_all_some (sem_table es) (d_tables d)) as [tabs Htabs].
   { intros t Hin. apply sem_table_some; auto. rewrite forallb_forall in Ht. auto. }
-  exists (mkpdoc (d_pairs d) etexts (struct_texts es tws) tabs). split.
+  exists (mkpdoc (d_pairs d) (map render_enum es) (struct_texts es tws) tabs). split.
   - unfold sem. fold es. rewrite <- Et at 1. rewrite (omap_render_structs es tws Hok). fold (struct_texts es tws). now rewrite Htabs.
-  - unfold with_structs. cbn [pd_pairs pd_enums pd_tables].
+  - unfold with_texts. cbn [pd_pairs pd_tables].
     assert (PT : parse_text b = Some (mkpdoc (d_pairs d) etexts stexts tabs)); [|unfold parse, parse_binary; rewrite U; auto].
     unfold parse_text. rewrite RAW. cbn [obind]. unfold to_records. cbn [rd_enums rd_pairs rd_structs rd_tables].
-    subst etexts. rewrite (omap_enum_entries es Hes). rewrite omap_map.
+    rewrite EE. rewrite omap_map.
     rewrite (omap_ext_in _ (fun tw => sem_table es (fst tw))).
     + rewrite <- omap_map. rewrite Et, Htabs. reflexivity.
     + intros tw Hin. rewrite Forall_forall in Htw. now apply to_table_rendered; auto.
